@@ -102,6 +102,9 @@ Proof. intros. apply app_nth1; auto. Qed.
 Ltac unf := unfold endc, setph, updk, updc, enq, deq, set_protocol, set_conns, set_locked, set_waiters,
   set_callers, set_script, set_creates, set_fails, set_chst, set_rq in *.
 
+Lemma sched_lost_cases c s : sched_lost c s = s \/ sched_lost c s = enq (ILost c) s.
+Proof. unfold sched_lost. destruct (held (nth c (conns s) dead_conn)); auto. Qed.
+
 Lemma wake_first_callers s : callers (wake_first s) = callers s.
 Proof. unfold wake_first. destruct (waiters s) as [|[k []] r]; auto. Qed.
 Lemma wake_first_conns s : conns (wake_first s) = conns s.
